@@ -49,7 +49,7 @@ Checks(e) ==
                             rows_from_pristine_profile |->
                                IF e.kind \in {"top", "tree"}
                                THEN /\ \A i \in DOMAIN e.rows : \E r \in TopRows(prof, o) : r.fn = e.rows[i].fn /\ r.flat = e.rows[i].flat /\ r.cum = e.rows[i].cum
-                                    /\ \A r \in TopRows(prof, o) : (r.flat # 0 \/ r.cum # 0) => \E i \in DOMAIN e.rows : e.rows[i].fn = r.fn
+                                    /\ \A r \in TopRows(prof, o) : (r.rawflat # 0 \/ r.rawcum # 0) => \E i \in DOMAIN e.rows : e.rows[i].fn = r.fn
                                ELSE ToSetOf(e.stacks) = TraceRows(prof, o) /\ Len(e.stacks) = Cardinality(TraceRows(prof, o)),
                             edges_from_pristine_profile |-> e.kind = "tree" =>
                                (ToSetOf(e.edges) = TreeEdges(prof, o) /\ Len(e.edges) = Cardinality(TreeEdges(prof, o))),
@@ -67,6 +67,7 @@ ApplyAssign(o, e) == CASE e.opt = "focus"  -> [o EXCEPT !.focus = ToSetOf(e.name
                        [] e.opt = "tf"     -> [o EXCEPT !.tf = ToSetOf(e.names)]
                        [] e.opt = "ti"     -> [o EXCEPT !.ti = ToSetOf(e.names)]
                        [] e.opt = "g"      -> [o EXCEPT !.g = e.text]
+                       [] e.opt = "mean"   -> [o EXCEPT !.mean = e.b]
                        [] e.opt = "si"     -> [o EXCEPT !.si = e.n]
                        [] e.opt = "rel"    -> [o EXCEPT !.rel = e.b]
                        [] OTHER -> o
